@@ -70,7 +70,11 @@ with contextlib.redirect_stdout(sink):
         elif t == "seed_global":
             random.seed(op["k"])
         elif t == "seed":
-            objs[op["obj"]].set_randstate(RandState.mkFromSeed(op["k"]))
+            # the documented seed-plus-string form as well (e.g. an instance path)
+            if op.get("s") is not None:
+                objs[op["obj"]].set_randstate(RandState.mkFromSeed(op["k"], op["s"]))
+            else:
+                objs[op["obj"]].set_randstate(RandState.mkFromSeed(op["k"]))
         elif t == "snap":
             snaps.append(objs[op["obj"]].get_randstate())
         elif t == "restore":
